@@ -69,13 +69,34 @@ namespace
         static const char *c09_name() { return "RawBlk{u8,data<float>[2],do_data u8[2],u16}"; }
     };
 
+    // a user type that writes a character block with the counted two-argument keeper.dump(ptr, n)
+    // (stated layout: 16-bit count + bytes, the same a std::string / buffer has, and what load(ptr,max) reads)
+    struct CountedBlk
+    {
+        str s;
+        u16 tail = 0;
+        void serialize(igris::archive::binary_serializer_basic &k) const
+        {
+            k.dump(s.data(), s.size());
+            igris::serialize(k, tail);
+        }
+        void deserialize(igris::archive::binary_deserializer_basic &k)
+        {
+            igris::deserialize(k, s);
+            igris::deserialize(k, tail);
+        }
+        auto fields() { return std::tie(s, tail); }
+        auto fields() const { return std::tie(s, tail); }
+        static const char *c09_name() { return "CountedBlk{dump(ptr,n),u16}"; }
+    };
+
     typedef TL<i8, i16, i32, i64, u8, u16, u32, u64, f32, f64, ld, str> L0;
     typedef TL<std::pair<u8, i32>, std::pair<str, u16>, std::pair<f64, str>, std::pair<i64, i8>, //
                std::tuple<i8>, TIDS, std::tuple<u16, u16, u16, u16>, std::tuple<str, str>,        //
                std::map<u8, u8>, std::map<str, i32>, std::map<i32, str>, std::map<u16, f32>, std::map<str, str>, //
                RPad, RStr, RDbl, RSIS, Plain, Custom, //
                std::pair<ld, i32>, std::tuple<u8, ld, u16>, Rec<ld, u8>, std::map<u8, ld>, DefaultedO, DefaultedN, //
-               RawBlk, std::pair<u16, u16>, std::pair<u8, u32>, std::pair<str, i32>>
+               RawBlk, std::pair<u16, u16>, std::pair<u8, u32>, std::pair<str, i32>, CountedBlk>
         L1x;
     typedef Cat<VecOf<L0>::type, L1x>::type L1;
     typedef TL<std::pair<std::vector<u16>, std::vector<str>>, std::pair<str, std::vector<u16>>, std::pair<RPad, std::map<u8, u8>>, //
@@ -83,7 +104,7 @@ namespace
                std::map<str, std::vector<u16>>, std::map<i32, std::vector<u16>>, std::map<str, TIDS>, std::map<u8, std::pair<str, u16>>,
                std::map<u16, RPad>, std::map<std::pair<u8, u8>, str>, std::map<std::vector<u8>, u8>, //
                Rec<std::vector<u16>, str>, Rec<RPad, u8>, Rec<std::pair<str, u16>, std::map<u8, u8>>, Rec<TIDS>, Rec<Plain, i8>, std::map<u8, Custom>, Rec<Custom, u8>, std::map<u8, DefaultedO>, Rec<DefaultedO, str>, //
-               std::pair<std::pair<u8, u32>, std::pair<str, i32>>, std::map<u8, std::pair<u8, u32>>, std::map<str, RawBlk>, Rec<RawBlk, str>>
+               std::pair<std::pair<u8, u32>, std::pair<str, i32>>, std::map<u8, std::pair<u8, u32>>, std::map<str, RawBlk>, Rec<RawBlk, str>, std::map<u8, CountedBlk>>
         L2x;
     typedef Cat<VecOf<L1>::type, L2x>::type L2;
     typedef TL<std::vector<std::vector<std::vector<u8>>>, std::vector<std::vector<std::vector<i32>>>, std::vector<std::vector<std::vector<str>>>,
@@ -322,6 +343,34 @@ namespace
         Exact ea(a.data(), a.size()), eb(b.data(), b.size());
         std::string enc = igris::serialize(igris::buffer(ea.p, ea.n)) + igris::serialize(igris::buffer(eb.p, eb.n));
         std::string encv = igris::serialize(std::string_view(ea.p, ea.n)) + igris::serialize(std::string_view(eb.p, eb.n));
+        {
+            // the counted two-argument dump(ptr, n) straight on the archive
+            std::string enc2;
+            igris::archive::binary_string_writer w2(enc2);
+            w2.dump((const char *)ea.p, ea.n);
+            w2.dump((const char *)eb.p, eb.n);
+            if (enc2 != ref)
+                mc::violation("C09.old.layout.dump_ptr_n", "dump(ptr,%zu); dump(ptr,%zu): %zu bytes %s, stated layout (u16 count + bytes) %zu bytes %s", la, lb,
+                              enc2.size(), hexs(enc2, 16).c_str(), ref.size(), hexs(ref, 16).c_str());
+            // ... and its mirror load(ptr, max) on what dump(ptr, n) wrote
+            size_t extra = slack == 2 ? 40 : slack;
+            Exact e2(enc2.data(), enc2.size()), ca(la + extra, 0xEE), cb(lb + extra, 0xEE);
+            igris::archive::binary_buffer_reader reader(e2.p, e2.n);
+            mc::crash_context("C09.old.decode.load_ptr_max");
+            reader.load(ca.p, (uint16_t)(ca.n > 65535 ? 65535 : ca.n)); // max is a 16-bit parameter
+            long mid = (const char *)reader.pointer() - e2.p;
+            reader.load(cb.p, (uint16_t)(cb.n > 65535 ? 65535 : cb.n));
+            long used = (const char *)reader.pointer() - e2.p;
+            bool oka = la == 0 || memcmp(ca.p, a.data(), la) == 0, okb = lb == 0 || memcmp(cb.p, b.data(), lb) == 0, untouched = true;
+            for (size_t i = la; i < ca.n; i++)
+                untouched = untouched && (unsigned char)ca.p[i] == 0xEE;
+            for (size_t i = lb; i < cb.n; i++)
+                untouched = untouched && (unsigned char)cb.p[i] == 0xEE;
+            if (!oka || !okb || !untouched || mid != (long)(2 + la) || used != (long)(4 + la + lb))
+                mc::violation("C09.old.roundtrip.dump_ptr_n", "dump(ptr,%zu); dump(ptr,%zu) then load(ptr,max) twice: blocks %s/%s, bytes past the length %s, consumed %ld then %ld (want %zu, %zu)",
+                              la, lb, oka ? "ok" : "WRONG", okb ? "ok" : "WRONG", untouched ? "untouched" : "OVERWRITTEN", mid, used, 2 + la, 4 + la + lb);
+            mc::crash_context("C09.old.serialize.buffer");
+        }
         mc::outcome(mc::fmt("buffers/len%zu", enc.size()));
         if (enc != ref)
             mc::violation("C09.old.layout.buffer", "buffer(%zu)||buffer(%zu): serialize gives %zu bytes %s, stated layout %zu bytes %s", la, lb,
@@ -451,6 +500,137 @@ namespace
     }
 }
 
+namespace
+{
+    // ---- archive / reader / writer / buffer objects that were copied, moved, returned or relocated before use ----
+    static const size_t RLEN[] = {0, 1, 14, 15, 16, 17, 31, 32, 300};
+    static void relocated_case()
+    {
+        const int NCLS = 6, NL = sizeof(RLEN) / sizeof(RLEN[0]);
+        int c = mc::choose(NCLS * W_COUNT * NL);
+        int cls = c / (W_COUNT * NL), way = c / NL % W_COUNT;
+        size_t len = RLEN[c % NL];
+        int pre_n = mc::choose(2); // values handled before the relocation: 0 or 1
+        static const char *CN[] = {"binary_buffer_reader", "binary_buffer_writer", "binary_string_writer", "igris::buffer", "writable_buffer", "settable_buffer"};
+        mc::describe("old[" C09_COMPILER "] %s %s after %d value(s), payload strings of %zu bytes", CN[cls], way_name(way), pre_n, len);
+        std::string a = buf_content(len, 0), b = buf_content(len, 2);
+        std::string wire;
+        ref_enc(wire, a);
+        ref_enc(wire, b);
+        Exact in(wire.data(), wire.size()); // caller's memory, alive throughout
+        bool ok = true, done = true;
+        std::string why;
+        mc::crash_context("C09.old.relocated.%s", CN[cls]);
+        switch (cls)
+        {
+        case 0:
+            done = with_relocated<igris::archive::binary_buffer_reader>(
+                way, [&] { return igris::archive::binary_buffer_reader(in.p, in.n); },
+                [&](igris::archive::binary_buffer_reader &r) {
+                    if (pre_n)
+                    {
+                        str x;
+                        igris::deserialize(r, x);
+                        ok = ok && x == a;
+                    }
+                },
+                [&](igris::archive::binary_buffer_reader &r) {
+                    str x, y;
+                    if (!pre_n)
+                        igris::deserialize(r, x);
+                    igris::deserialize(r, y);
+                    ok = ok && (pre_n || x == a) && y == b && (const char *)r.pointer() == in.p + in.n && r.end() == in.p + in.n;
+                });
+            break;
+        case 1:
+        {
+            Exact out(wire.size(), 0xEE);
+            done = with_relocated<igris::archive::binary_buffer_writer>(
+                way, [&] { return igris::archive::binary_buffer_writer(out.p, out.n); },
+                [&](igris::archive::binary_buffer_writer &w) {
+                    if (pre_n)
+                        igris::serialize(w, a);
+                },
+                [&](igris::archive::binary_buffer_writer &w) {
+                    if (!pre_n)
+                        igris::serialize(w, a);
+                    igris::serialize(w, b);
+                    ok = ok && w.ptr == out.p + out.n && memcmp(out.p, wire.data(), out.n) == 0;
+                });
+            break;
+        }
+        case 2:
+        {
+            std::string target;
+            done = with_relocated<igris::archive::binary_string_writer>(
+                way, [&] { return igris::archive::binary_string_writer(target); },
+                [&](igris::archive::binary_string_writer &w) {
+                    if (pre_n)
+                        igris::serialize(w, a);
+                },
+                [&](igris::archive::binary_string_writer &w) {
+                    if (!pre_n)
+                        igris::serialize(w, a);
+                    igris::serialize(w, b);
+                    ok = ok && target == wire;
+                });
+            break;
+        }
+        case 3:
+            done = with_relocated<igris::buffer>(
+                way, [&] { return igris::buffer(in.p, in.n); }, [&](igris::buffer &) {},
+                [&](igris::buffer &v) {
+                    ok = ok && v.data() == in.p && v.size() == in.n && (in.n == 0 || memcmp(v.data(), wire.data(), in.n) == 0) &&
+                         igris::serialize(v).size() == in.n + 2;
+                });
+            break;
+        case 4:
+        {
+            Exact ca(len, 0xEE);
+            done = with_relocated<igris::archive::writable_buffer>(
+                way,
+                [&] {
+                    igris::archive::writable_buffer w;
+                    w = igris::buffer(ca.p, ca.n);
+                    return w;
+                },
+                [&](igris::archive::writable_buffer &) {},
+                [&](igris::archive::writable_buffer &w) {
+                    igris::archive::binary_buffer_reader r(in.p, in.n);
+                    igris::deserialize(r, w);
+                    ok = ok && w.size() == len && w.data() == ca.p && (len == 0 || memcmp(ca.p, a.data(), len) == 0) &&
+                         (const char *)r.pointer() == in.p + 2 + len;
+                });
+            break;
+        }
+        default:
+        {
+            igris::buffer view;
+            done = with_relocated<igris::archive::settable_buffer>(
+                way, [&] { return igris::archive::settable_buffer(view); }, [&](igris::archive::settable_buffer &) {},
+                [&](igris::archive::settable_buffer &sb) {
+                    igris::archive::binary_buffer_reader r(in.p, in.n);
+                    r.load(sb);
+                    ok = ok && view.size() == len && view.data() == in.p + 2 && (const char *)r.pointer() == in.p + 2 + len;
+                });
+            break;
+        }
+        }
+        if (!done)
+        {
+            mc::describe("old[" C09_COMPILER "] %s cannot be %s (not assignable)", CN[cls], way_name(way));
+            return;
+        }
+        if (way != W_DIRECT)
+            mc::nontrivial();
+        mc::outcome(mc::fmt("reloc/%s/%d/%zu", CN[cls], way, len));
+        if (!ok)
+            mc::violation(std::string("C09.old.relocated.") + CN[cls], "%s %s after %d value(s), strings of %zu bytes: wrong data / position after the relocation",
+                          CN[cls], way_name(way), pre_n, len);
+        mc::crash_context("C09.old.harness");
+    }
+}
+
 #ifdef EXTRAS
 const char *const c09::framework = "old";
 #endif
@@ -519,6 +699,13 @@ MC_INIT
                          }});
     mc::add_check("old.buffers", buffers_case);
     mc::add_check("old.raw_blocks", raw_blocks_case);
+    mc::add_check("old.relocated_archives", relocated_case);
+    goldens().push_back({"CountedBlk", [] {
+                             CountedBlk c;
+                             c.s = "abc";
+                             c.tail = 0x0102;
+                             golden<CountedBlk>("CountedBlk{dump(\"abc\",3),0x0102}", c, B("\x03\x00\x61\x62\x63\x02\x01"));
+                         }});
     goldens().push_back({"RawBlk", [] {
                              RawBlk b;
                              b.tag = 7;
